@@ -9,6 +9,7 @@ import (
 	"strings"
 	"testing"
 	"verifharness/gen"
+	"verifharness/pt"
 
 	"pgregory.net/rapid"
 )
@@ -195,5 +196,29 @@ func TestC06DebugL2Case(t *testing.T) {
 	for li := range cs.Layouts {
 		out, err := runLayout(cs, li, text)
 		fmt.Printf("--- layout %d %s\nerr=%v engineErr=%q\n%s", li, layoutText(cs.Layouts[li], cs.Reverse[li]), err, out.err, rowsText(out.rows))
+	}
+}
+
+// TestC06DebugScanL2: C06_SCAN=<n> [C06_SEED=<first>]: generate n end-to-end cases, run the check on each and
+// print verdict + classes of the cases that have a two-pass command (development aid for the class histogram).
+func TestC06DebugScanL2(t *testing.T) {
+	n, _ := strconv.Atoi(os.Getenv("C06_SCAN"))
+	if n == 0 {
+		t.Skip("manual probe")
+	}
+	first, _ := strconv.Atoi(os.Getenv("C06_SEED"))
+	g := rapid.Custom(genL2)
+	for i := first; i < first+n; i++ {
+		c := g.Example(i)
+		if tp, _ := limiterBeforeTwoPass(c.Chain); tp < 0 {
+			continue
+		}
+		o := &pt.Obs{}
+		err := checkL2(c, o)
+		verdict := "held"
+		if err != nil {
+			verdict = "VIOLATION/INCONCLUSIVE: " + firstLine(err.Error())
+		}
+		fmt.Printf("%d %s\n    %s\n    %s\n", i, chainText(c.Chain), verdict, fmt.Sprintf("%v", *o))
 	}
 }
